@@ -1569,6 +1569,17 @@ class SerEval:
             if v is None:
                 return False
             raise Unsupported("isinstance of an abstract value")
+        if fn in ("all", "any") and len(c.args) == 1 and isinstance(c.args[0], (ast.GeneratorExp, ast.ListComp)) and len(c.args[0].generators) == 1 and not c.args[0].generators[0].ifs:
+            # all(isinstance(x, int) for x in <payload octets>): the elements of a symbolic payload are octets
+            g = c.args[0].generators[0]
+            elt = c.args[0].elt
+            if isinstance(g.target, ast.Name) and isinstance(elt, ast.Call) and ast.unparse(elt.func) == "isinstance" and len(elt.args) == 2 and isinstance(elt.args[0], ast.Name) and elt.args[0].id == g.target.id and ast.unparse(elt.args[1]) == "int":
+                seq = self.expr(g.iter, env, run)
+                if isinstance(seq, Bytes):
+                    return True
+                if isinstance(seq, Tup) and all(isinstance(x, (BV, SBV, Lin)) or (isinstance(x, int) and not isinstance(x, bool)) for x in seq):
+                    return True
+            raise Unsupported(f"{fn}() over a comprehension")
         if fn == "bool":
             v = self.expr(c.args[0], env, run)
             if isinstance(v, BV) and not v.is_const():
